@@ -33,7 +33,11 @@ TDur == /\ l <= Len(Rec) /\ Ev.e = "dur"
         /\ l' = l + 1
 \* {"e":"none","what"}: out-of-range values yield None
 TNone == /\ l <= Len(Rec) /\ Ev.e = "none" /\ Ev.result = "None" /\ l' = l + 1
-Next == TDay \/ TFrac \/ TDur \/ TNone
+\* serde fallback helpers on cells that carry more than a number (1904 flag, duration flavour):
+\* must agree with the direct conversion, unless the disagreement is a listed finding
+KnownKeys == LET k == ndJsonDeserialize(IOEnv.KNOWN) IN {k[i].key : i \in 1..Len(k)}
+THelper == /\ l <= Len(Rec) /\ Ev.e = "helper" /\ (Ev.agree \/ Ev.key \in KnownKeys) /\ l' = l + 1
+Next == TDay \/ TFrac \/ TDur \/ TNone \/ THelper
 Spec == Init /\ [][Next]_l
 Accepted ==
   LET d == TLCGet("stats").diameter IN
